@@ -152,7 +152,7 @@ def options(rng, critical, valued=True):
     return lib, wire
 
 
-def certificate(rng, valued=False, subject=None):
+def certificate(rng, valued=False, subject=None, critical_wire=None):
     """valued=True adds the options that carry a value (force-command, source-address); subject=(kind, host_key(..), version)
     certifies that very key again."""
     key, _, _, _, alg, _, _ = _mods()
@@ -182,7 +182,8 @@ def certificate(rng, valued=False, subject=None):
     cls = classes[(kind, version)]
     if version == 'v01':
         serial = rng.choice([0, 1, 2 ** 64 - 1, rng.getrandbits(64)])
-        critical_lib, critical_wire = options(rng, True, valued)
+        critical_lib, reference_critical_wire = options(rng, True, valued)
+        critical_wire = reference_critical_wire if critical_wire is None else critical_wire
         extensions_lib, extensions_wire = options(rng, False)
         lib = cls(host_key_algorithm=algorithm, public_key=public, nonce=bytearray(nonce), serial=serial,
                   certificate_type=cert_type, key_id=key_id, valid_principals=principals_lib, valid_after=after_lib,
@@ -221,7 +222,8 @@ def kexinit(rng):
         lists.append(names)
     languages = []
     for _ in range(2):
-        tags = [rng.choice(['en-US', 'de', 'hu-HU', 'i-klingon']) for _ in range(rng.choice([0, 0, 0, 1, 2]))]
+        tags = [rng.choice(['en-US', 'de', 'hu-HU', 'i-klingon', 'es-419', 'de-1996', 'sl-rozaj-1994', 'zh-Hant-TW', 'x-a1'])
+                for _ in range(rng.choice([0, 0, 0, 1, 2]))]
         languages.append(tags)
     follows = rng.random() < 0.5
     reserved = rng.choice([0, 0, 1, 2 ** 32 - 1])
@@ -367,6 +369,21 @@ def certificate_renewed(rng):
     kind = rng.choice(['rsa', 'dss', 'ecdsa', 'ed25519'])
     subject = (kind, host_key(rng, kind, all_curves=False), 'v01')
     return [certificate(rng, False, subject), certificate(rng, False, subject)]
+
+
+def certificate_plain_options(rng):
+    """For the fingerprint monitor only (the library object does not describe these options): a v01 certificate whose
+    source-address / force-command options carry their value as one string, the encoding the repository's own test vectors use
+    and the parser accepts, with address lists that are not in normal form (host bits set, mixed families, a single address)."""
+    values = rng.sample(['192.168.1.5/24', '2001:db8::1/64', '10.0.0.0/8', '10.1.2.3', '192.168.0.0/16,10.0.0.1/8', '::1/128',
+                         '172.16.5.4/12,2001:db8::/32'], rng.randrange(1, 3))
+    wire = [ref.string(b'source-address') + ref.string(','.join(values).encode('ascii'))]
+    if rng.random() < 0.5:
+        wire.insert(0, ref.string(b'force-command') + ref.string(b'/bin/true'))
+    kind = rng.choice(['rsa', 'dss', 'ecdsa', 'ed25519'])
+    pair = certificate(rng, False, (kind, host_key(rng, kind, all_curves=False), 'v01'), critical_wire=wire)
+    pair.label += '+plain-option-values'
+    return pair
 
 
 def certificate_valued(rng):
